@@ -273,3 +273,97 @@ def rule_inbounds(ctx, cfg, prog, rule='R-INBOUNDS', only=None):
                        cfg=cfg, sample=dict(config=cfg, function=f['name'], access=nm, guarded_by='cursor tested against %s on every path' % ck[2:]))
     ctx.count('R-INBOUNDS data-selected accesses (precondition)[%s]' % cfg, n_data)
     return n_acc
+
+
+# ---------------------------------------------------------------------------------------------- R-HIDDEN/flag
+KEY_DERIVATION = ('keygen', 'nondelegable_keygen', 'qualifykey', 'nondelegable_qualifykey')
+
+
+def rule_hidden_flag(ctx, cfg, prog, rule='R-HIDDEN/flag'):
+    """the four key-derivation routines (they produce a SecretKey from an AttributeList): every use of the identity of a list element
+    (`attrs.attrs[k].id`), in the routine itself or in any scheme routine it hands the list to, happens only after the omitFromKeys flag
+    of the SAME element has been tested on every path (must-pass on the CFG).  Independent of the loop structure; a derivation that
+    obtains its attribute product from a routine which folds every attribute (precompute: right for ciphertexts, wrong for keys) is
+    reported at that routine's use of `id`."""
+    n = 0
+    byname = {}
+    for f in scheme_functions(prog):
+        byname.setdefault(f['qn'], f)
+    for name in KEY_DERIVATION:
+        f = byname.get(WK + name)
+        if f is None:
+            raise bm.AnalysisBroken('R-HIDDEN/flag: %s not found' % name)
+        lists = ['P:%s' % p['name'] for p in f.get('params', []) if _rec_of_type(p['t'])[0] == WK + 'AttributeList']
+        if not lists:
+            raise bm.AnalysisBroken('R-HIDDEN/flag: %s has no attribute list' % name)
+        work = [(f, set(lists), name)]
+        seen = set()
+        while work:
+            fn, lroots, via = work.pop()
+            key = (fn['qn'], tuple(sorted(lroots)))
+            if key in seen:
+                continue
+            seen.add(key)
+            g = pr.build(fn)
+            binds = {}
+            for nd in g.stmt_nodes():
+                if nd.ast.get('k') == 'decl':
+                    for v in nd.ast['vars']:
+                        if (v.get('t') or {}).get('k') == 'ref' and v.get('init') is not None:
+                            binds[v['id']] = pr.norm_obj(pr.canon(v['init'], binds))
+                        elif (v.get('t') or {}).get('k') == 'ptr' and v.get('init') is not None:
+                            i0 = _unwrap(v['init'])
+                            if isinstance(i0, dict) and i0.get('k') == 'un' and i0.get('op') == '&':
+                                binds[v['id']] = pr.norm_obj(pr.canon(i0['e'], binds))
+            # pointer locals that are only ever assigned the address of one lvalue (or null)
+            cand = {}
+            for nd in g.nodes:
+                if nd.ast is None:
+                    continue
+                for x in walk(nd.ast):
+                    if x.get('k') == 'assign' and x.get('op') == '=':
+                        l = _unwrap(x['lhs'])
+                        if isinstance(l, dict) and l.get('k') == 'ref' and l.get('rk') == 'local' and (l.get('t') or {}).get('k') == 'ptr':
+                            r0 = _unwrap(x['rhs'])
+                            if isinstance(r0, dict) and r0.get('k') == 'un' and r0.get('op') == '&':
+                                cand.setdefault(l['id'], set()).add(pr.norm_obj(pr.canon(r0['e'], binds)))
+                            elif isinstance(r0, dict) and (r0.get('k') == 'nullptr' or str(r0.get('cv')) == '0'):
+                                pass
+                            else:
+                                cand.setdefault(l['id'], set()).add('?')
+            for vid, vals in cand.items():
+                if len(vals) == 1 and '?' not in vals and vid not in binds:
+                    binds[vid] = list(vals)[0]
+            # tests of the flag: condition nodes mentioning <elem>.omitFromKeys
+            tests = {}
+            for nd in g.cond_nodes():
+                for x in walk(nd.ast):
+                    if x.get('k') == 'member' and x.get('name') == 'omitFromKeys':
+                        tests.setdefault(pr.norm_obj(pr.canon(x['base'], binds)), []).append(nd.id)
+            for nd in g.nodes:
+                if nd.ast is None or nd.kind not in ('stmt', 'cond'):
+                    continue
+                for x in walk(nd.ast):
+                    if x.get('k') == 'member' and x.get('name') == 'id':
+                        elem = pr.norm_obj(pr.canon(x['base'], binds))
+                        if not any(elem.startswith(r + '.attrs[') for r in lroots):
+                            continue
+                        n += 1
+                        ok = any(g.must_pass_node(t, nd.id) for t in tests.get(elem, []))
+                        ctx.ob(rule, ok, 'hiddenflag|%s|%s|%s' % (name, fn['name'], loc_str(x)), loc_str(x),
+                               '%s%s: the identity %s.id enters the computation at %s although no test of %s.omitFromKeys lies on every path to it: a '
+                               'hidden attribute is folded into key material (the key then opens / delegates for a slot it must leave open)' % (
+                                   name, '' if fn is f else ' (through %s)' % fn['name'], elem, loc_str(x), elem),
+                               cfg=cfg, sample=dict(config=cfg, derivation=name, routine=fn['name'], element=elem))
+                # callees that receive the list
+                for c in pr.calls(nd.ast):
+                    cal = prog.callee(c, fn)
+                    if cal is None or 'body' not in cal or not cal['qn'].startswith(WK):
+                        continue
+                    sub = set()
+                    for a, p in zip(c.get('args', []), cal.get('params', [])):
+                        if pr.norm_obj(pr.canon(a, binds)) in lroots:
+                            sub.add('P:%s' % p['name'])
+                    if sub:
+                        work.append((cal, sub, name))
+    return n
